@@ -9,6 +9,7 @@ import h2.errors
 import h2.events
 import h2.exceptions
 import hyperframe.exceptions
+import hyperframe.frame
 import priority
 
 from .events import (
@@ -134,7 +135,9 @@ class H2Protocol:
         # The decoder took its limit from the default settings above
         self.connection.decoder.max_header_list_size = config.h2_max_header_list_size
 
+        self.goaway = b""
         self.keep_alive_requests = 0
+        self.last_stream_id: Optional[int] = None
         self.send = send
         self.server = server
         self.ssl = ssl
@@ -303,7 +306,7 @@ class H2Protocol:
                     stream.idle for stream in self.streams.values()
                 )
                 if idle and self.context.terminated.is_set():
-                    self.connection.close_connection()
+                    self.connection.close_connection(last_stream_id=self.last_stream_id)
                     await self._flush()
                 await self.send(Updated(idle=idle))
             elif isinstance(event, Request):
@@ -344,7 +347,13 @@ class H2Protocol:
                     await self.send(Updated(idle=self.idle))
 
                 if self.keep_alive_requests > self.config.keep_alive_max_requests:
-                    self.connection.close_connection(last_stream_id=event.stream_id)
+                    # Tell the client to go away without h2 considering the
+                    # connection closed (it has no graceful shutdown), as
+                    # the streams up to this one are yet to be responded to.
+                    self.last_stream_id = event.stream_id
+                    self.goaway = hyperframe.frame.GoAwayFrame(
+                        stream_id=0, last_stream_id=event.stream_id
+                    ).serialize()
             elif isinstance(event, h2.events.DataReceived):
                 if event.stream_id in self.streams:
                     # Otherwise the response has been sent before the full
@@ -387,7 +396,8 @@ class H2Protocol:
         await self._flush()
 
     async def _flush(self) -> None:
-        data = self.connection.data_to_send()
+        data = self.connection.data_to_send() + self.goaway
+        self.goaway = b""
         if data != b"":
             await self.send(RawData(data=data))
 
